@@ -43,7 +43,7 @@ def plan(tier, seed):
     sub = [c08.plan(tier, seed), c10.plan(tier, seed), c12.plan(tier, seed), c13.plan(tier, seed)]
     pl.cases = [c for p in sub for c in p.cases if c.key.startswith(("C08-T/", "C10-R/", "C12-C/", "C12-M/", "C13-A/"))]
     pl.canaries = [sub[0].canaries[0]]
-    n = 4 if tier == "quick" else 6
+    n = 4 if tier == "quick" else 7
 
     def reparse():
         return bounded.run_native("c11_reparse", {"max_tokens": n, "known": bounded.known_for("C11", "C11-B")})
